@@ -63,15 +63,19 @@ def diff_paths(a, b, p=""):
 
 
 def only_expansions(before, paths):
-    """every change lies inside a node under /definitions that was a $ref before the call"""
+    """every change lies inside a node X under /definitions that was a $ref before the call, and X is one the default /
+    example validators are known to expand in place: a proper ancestor of X carries a default or an example (its validator
+    expands the whole sub-tree through the shared maps), or X itself carries one and hangs off a pointer field (items,
+    additionalProperties, additionalItems) - the only places where the walk hands over the stored schema, not a copy"""
     for p in paths:
         parts = [x for x in p.split("/") if x != ""]
         if not parts or parts[0] != "definitions":
             return False
-        node, ok = before, False
+        node, chain = before, []          # chain: (segment, node) from the root down to X
+        found = None
         for x in parts:
-            if isinstance(node, dict) and "$ref" in node:
-                ok = True
+            if isinstance(node, dict) and "$ref" in node and len(chain) >= 2:
+                found = node
                 break
             if isinstance(node, dict) and x in node:
                 node = node[x]
@@ -79,7 +83,16 @@ def only_expansions(before, paths):
                 node = node[int(x)]
             else:
                 break
-        if not ok and not (isinstance(node, dict) and "$ref" in node):
+            chain.append((x, node))
+        if found is None and isinstance(node, dict) and "$ref" in node:
+            found = node
+        if found is None:
+            return False
+        ancestors = [n for seg, n in chain[1:-1] if isinstance(n, dict)]       # below /definitions, above X
+        carried_above = any(("default" in a or "example" in a) for a in ancestors)
+        last = chain[-1][0] if chain else ""
+        own = ("default" in found or "example" in found) and last in ("items", "additionalProperties", "additionalItems")
+        if not (carried_above or own):
             return False
     return True
 
